@@ -22,8 +22,7 @@ def instances(tier):
         n += 1
         yield f'win{s}-{e}-{f}', dict(BASE, max_len=3 if tier == 'quick' else 3, win_start=s, win_end=e, fill=f), 'AlphaC03', None
     if tier == 'quick':
-        yield 'len4-nowin', dict(BASE, max_len=4, win_start=2, win_end=None, fill=0), 'AlphaC03', None
-        yield 'sim7', dict(BASE, max_len=7, win_start=3, win_end=10, fill=170), 'AlphaC03', 'num=1000'
+        yield 'sim7', dict(BASE, max_len=7, win_start=3, win_end=10, fill=170), 'AlphaC03', 'num=3000'
     else:
         for (s, e, f) in [(0, None, 0), (2, None, 234), (3, 9, 17), (1, 5, 0), (6, 12, 255)]:
             yield f'len4-win{s}-{e}', dict(BASE, max_len=4, win_start=s, win_end=e, fill=f), 'AlphaC03', None
